@@ -133,9 +133,7 @@ theorem intoContainer_G {n : Node} (hn : GN P n) : ConG P (intoContainer n) := b
 
 theorem enter_G {cr key next} (hn : GN P next) : ConG P (enter cr key next) := by
   unfold enter
-  split
-  · trivial
-  · exact intoContainer_G hn
+  exact intoContainer_G hn
 
 theorem decodeRoot_G {c : Cst} (h : P.PC c) : ConG P (decodeRoot c) := by
   cases c with
@@ -152,16 +150,12 @@ theorem conGet_G {o self con key} (hs : GN P self) (hc : GN P con) :
   | doc keys obj =>
     simp only [conGet]
     split
-    · exact hs
-    · split
-      · rename_i n hl
-        exact ((GN_doc keys obj).1 hc).2 _ (lookupN_mem hl)
-      · trivial
+    · rename_i n hl
+      exact ((GN_doc keys obj).1 hc).2 _ (lookupN_mem hl)
+    · trivial
   | docNil =>
     simp only [conGet]
-    split
-    · exact hs
-    · trivial
+    trivial
   | ary nodes =>
     have hm := (GN_ary nodes).1 hc
     simp only [conGet]
@@ -300,14 +294,10 @@ theorem wrapWalk_G {α} {Q : α → Prop} {o con key} {w : Walk α}
   cases w with
   | done child' a =>
     simp only [wrapWalk]
-    split
-    · exact hw
-    · exact ⟨putChild_G hc hw.1, hw.2⟩
+    exact ⟨putChild_G hc hw.1, hw.2⟩
   | notFound child' =>
     simp only [wrapWalk]
-    split
-    · exact hw
-    · exact putChild_G hc hw
+    exact putChild_G hc hw
   | fail e => trivial
   | panic => trivial
   | doneSelf s a => exact hw
@@ -575,9 +565,7 @@ theorem ensurePut_G {o con key self x} (hc : GN P con) (hs : GN P self) (hx : En
   | ok p =>
     obtain ⟨child, s'⟩ := p
     simp only [ensurePut]
-    split
-    · exact ⟨hc, hx.1⟩
-    · exact ⟨putChild_G hc hx.1, hs⟩
+    exact ⟨putChild_G hc hx.1, hs⟩
   | err e => trivial
   | panic => trivial
 
@@ -720,11 +708,7 @@ theorem opMove_G {o r op} (hcopy : ∀ n, GN P n → P.PC (cstOf o.esc n)) (hr :
         | err e => trivial
         | ok x =>
           rw [hg] at hg'
-          have hvx : GN P (if key = [] then (deepCopy o.esc x).1 else x) := by
-            split
-            · exact GN_deepCopy hcopy hg'
-            · exact hg'
-          exact liftAct_G (conRemove_G hc) hvx
+          exact liftAct_G (conRemove_G hc) hg'
       have hcont : ∀ r1 val, RootG P r1 → GN P val → OutG P (liftWalk r1 (addWalk o r1 op.path val)
           (fun _ => .err .missing)) := by
         intro r1 val h1 hvv
@@ -764,9 +748,7 @@ theorem opTest_G {o r op} (hr : RootG P r) : OutG P (opTest o r op) := by
       | mk b val' =>
         simp only []
         split
-        · split
-          · exact ⟨hc, trivial⟩
-          · exact ⟨hc, trivial⟩
+        · exact ⟨hc, trivial⟩
         · trivial
     | ok val =>
       simp only []
@@ -779,9 +761,7 @@ theorem opTest_G {o r op} (hr : RootG P r) : OutG P (opTest o r op) := by
         split
         · split
           · exact ⟨hc, trivial⟩
-          · split
-            · exact ⟨hc, trivial⟩
-            · exact ⟨putChild_G hc this, trivial⟩
+          · exact ⟨putChild_G hc this, trivial⟩
         · trivial
 
 /-! #### copy -/
@@ -808,6 +788,14 @@ theorem copySource_G {o r frm} (hr : RootG P r) : WalkG P (fun v => GN P v) (cop
   | err e => trivial
   | ok x => rw [hg] at hg'; exact ⟨hc, hg'⟩
 
+theorem copyFirst_G {o r frm} (hr : RootG P r) : WalkG P (fun v => GN P v) (copyFirst o r frm) := by
+  unfold copyFirst
+  split
+  · split
+    · trivial
+    · exact ⟨hr.1, hr.1⟩
+  · exact copySource_G hr
+
 theorem destWalk_G {o r path} (hr : RootG P r) : WalkG P (fun _ => True) (destWalk o r path) :=
   withPath_G o r _ _ _ hr fun _ _ _ hc _ => ⟨hc, trivial⟩
 
@@ -826,7 +814,7 @@ theorem opCopy_G {o r acc op} (hcopy : ∀ n, GN P n → P.PC (cstOf o.esc n)) (
   split
   · trivial
   · rename_i frm _
-    have hw1 := copySource_G (o := o) (frm := frm) hr
+    have hw1 := copyFirst_G (o := o) (frm := frm) hr
     split
     · exact failOf_G
     · rename_i r1 h1
